@@ -48,7 +48,7 @@ package freelist
 //@   ghost at after call os.IsNotExist#0: gexists = !$r0
 //@   assert at before call os.Rename#0: @D7-whole-file $a0 == old(cp.file.$name) && $a1 == old(cp.file.$name) + ".gc" && !gexists
 //@   assert at before call os.Rename#0: @D7-flushed-first event("call:freelist.FreeList.Flush") == 1 && held(cp.flushLock)
-//@   ensures @D7-existing-untouched gexists ==> event("call:os.Rename") == 0 && event("call:freelist.FreeList.Flush") == 0 && cp.file == old(cp.file) && cp.blockPool == old(cp.blockPool)
+//@   internal ensures @D7-existing-untouched gexists ==> event("call:os.Rename") == 0 && event("call:freelist.FreeList.Flush") == 0 && cp.file == old(cp.file) && cp.blockPool == old(cp.blockPool)
 //@   ensures @path err == nil ==> path == old(cp.file.$name) + ".gc"
 //@   unguarded FreeList.file cp.file is only written by ToGC itself, and ToGC is run by one goroutine at a time (the primary GC goroutine, or the upgrade before GC is started)
 
@@ -98,3 +98,12 @@ package freelist
 //@   ghost at return: fl.$pending = ite(err == nil, false, fl.$pending)
 //@   ensures err == nil ==> fl != nil && fl.file != nil && fl.file.$open && fresh(fl.file) && fl.writer != nil && !fl.$pending
 //@   ensures err != nil ==> fl == nil
+
+// Iterator over a freelist file: one 12-byte entry per call.
+//@ func NewIterator(reader io.Reader) (it *Iterator)
+//@   fresh it
+//@   ensures it != nil
+//@ func (cpi *Iterator) Next() (blk *types.Block, err error)  property C13
+//@   fresh blk
+//@   ensures err == nil ==> blk != nil
+//@   ensures err != nil ==> blk == nil
